@@ -45,8 +45,9 @@ LEVEL_NOTE = ("The header loop of _read_private_key_pem (a dict with keys taken 
               "decryption part is under contract. ECDSAKey._decode_key's type check (fix f5d5686) is covered by the native battery only (decode_wrong_material), not by "
               "an obligation. Library exception classes are assumed from probing (bcrypt.kdf: ValueError for rounds < 1 or empty salt / "
               "password; CBC finalize: ValueError for a length that is not a multiple of 16; base64: binascii.Error). "
-              "Ed25519Key._parse_signing_key_data's own raise set is an assumed contract (its loops append to a local list of "
-              "unbounded length, outside the engine's subset), replayed natively with crafted files. Not decided: the "
+              "Ed25519Key._parse_signing_key_data's own raise set is an assumed contract (with its two local lists made abstract "
+              "containers the engine accepts the function, but the concrete cipher table times the two loops did not finish exploring in "
+              "25 minutes - tried and withdrawn), replayed natively with crafted files incl. every cipher name of the transport table. Not decided: the "
               "traditional PEM path inside cryptography (RSAKey._decode_key / ECDSAKey._decode_key), 'never yields a key "
               "whose halves disagree', and run time (a huge bcrypt round count makes loading very slow rather than failing).")
 TECHNIQUE = "deductive: exceptional postconditions (no-raise obligations at every subscript and library call) on the real AST, z3"
